@@ -46,6 +46,21 @@ func reflectName(t types.Type) string {
 	return ""
 }
 
+// abiFieldNameOK: getReflectType title-cases the JSON name into the Go field name of the rebuilt struct, which must
+// be an exported identifier (word breaks other than '_' produce characters no identifier may contain).
+func abiFieldNameOK(n string) bool {
+	for i, c := range n {
+		letter := c >= 'a' && c <= 'z' || c >= 'A' && c <= 'Z'
+		if i == 0 && !letter {
+			return false
+		}
+		if !(letter || c >= '0' && c <= '9' || c == '_') {
+			return false
+		}
+	}
+	return n != ""
+}
+
 type abiLeaf struct {
 	Path string // pkg.Type.Field
 	Name string // ABI leaf type name
@@ -64,17 +79,33 @@ func abiLeaves(owner string, st *types.Struct, out *[]abiLeaf, nested *[]*types.
 			continue
 		}
 		jsonName := f.Name()
+		jsonOpts := ""
 		if j := tag.Get("json"); j != "" {
-			jsonName = strings.Split(j, ",")[0]
+			parts := strings.SplitN(j, ",", 2)
+			jsonName = parts[0]
+			if len(parts) == 2 {
+				jsonOpts = parts[1]
+			}
 		}
 		ft := types.Unalias(f.Type())
 		if f.Anonymous() {
 			if s, ok := ft.Underlying().(*types.Struct); ok {
+				if tag.Get("json") != "" && jsonName != "" {
+					*out = append(*out, abiLeaf{Path: owner + "." + f.Name(), JSON: jsonName, Bad: "embedded struct with a JSON name: the ABI flattens its fields while encoding/json nests them under \"" + jsonName + "\""})
+				}
 				abiLeaves(owner+"."+f.Name(), s, out, nested)
 				continue
 			}
 		}
 		leaf := abiLeaf{Path: owner + "." + f.Name(), JSON: jsonName}
+		switch {
+		case jsonName == "":
+			leaf.Bad = "empty ABI field name (json tag with options but no name): reflect.StructOf panics on it"
+		case !abiFieldNameOK(jsonName):
+			leaf.Bad = "JSON name \"" + jsonName + "\" does not title-case to an exported Go identifier: reflect.StructOf panics on it"
+		case jsonOpts != "":
+			leaf.Bad = "json tag options (" + jsonOpts + ") are dropped by the ABI: the value's own JSON is rejected or differs from the decoded JSON"
+		}
 		for reflectName(ft) == "" && leaf.Bad == "" {
 			switch x := ft.(type) {
 			case *types.Array:
@@ -186,6 +217,7 @@ func c29(r *Run) {
 	sort.Slice(regs, func(i, j int) bool { return regs[i].named.String() < regs[j].named.String() })
 	customs := map[string]*types.Named{}
 	seen := map[string]bool{}
+	onPath := map[string]bool{}
 	var visit func(nt *types.Named, at string)
 	visit = func(nt *types.Named, at string) {
 		key := nt.String()
@@ -232,9 +264,26 @@ func c29(r *Run) {
 				r.bad("C29.R1", "field:"+l.Path, at, fmt.Sprintf("type name %q has no case in getReflectType: the value cannot be encoded or decoded through the ABI", l.Name))
 			}
 		}
+		titled := map[string]string{}
+		for _, l := range leaves {
+			if l.Bad != "" || l.JSON == "" {
+				continue
+			}
+			k := strings.ToLower(l.JSON)
+			if prev, dup := titled[k]; dup {
+				r.bad("C29.R1", "field:"+l.Path+":name-collision", at, fmt.Sprintf("JSON names %q and %q title-case to the same Go field name: reflect.StructOf panics on the duplicate", prev, l.JSON))
+			}
+			titled[k] = l.JSON
+		}
+		onPath[key] = true
 		for _, n := range nested {
+			if onPath[n.String()] {
+				r.bad("C29.R1", "type:"+tn+":recursive", at, fmt.Sprintf("%s contains itself through %s: getReflectType recurses without bound", tn, short(n.String())))
+				continue
+			}
 			visit(n, at)
 		}
+		delete(onPath, key)
 	}
 	for _, rt := range regs {
 		visit(rt.named, rt.at)
